@@ -145,7 +145,13 @@ func (ex *Exec) eval(e ast.Expr, st *State) Value {
 		if iv, ok := v.(*IfaceV); ok && !iv.Nil && types.Identical(iv.Typ, ex.typeOf(e)) {
 			return iv.V
 		}
-		unsupported("type assertion at %s", ex.pos(e.Pos()))
+		// a pointer stored in an interface without a wrapper: its pointee type is its dynamic type
+		if pv, ok := v.(*PtrV); ok && !pv.Nil && len(pv.Path) == 0 {
+			if pt, isPtr := ex.typeOf(e).(*types.Pointer); isPtr && pv.Loc.Typ != nil && types.Identical(pv.Loc.Typ, pt.Elem()) {
+				return pv
+			}
+		}
+		unsupported("type assertion of %T (%v) to %s at %s", v, func() interface{} { if iv, ok := v.(*IfaceV); ok { return iv.Typ }; return nil }(), ex.typeOf(e), ex.pos(e.Pos()))
 	}
 	unsupported("expression %T at %s", e, ex.pos(e.Pos()))
 	return nil
@@ -434,6 +440,15 @@ func (ex *Exec) evalUnary(e *ast.UnaryExpr, st *State) Value {
 			ex.escaped[l] = true
 			st.store[l] = v
 			return &PtrV{Loc: l}
+		}
+		if ix, ok := ast.Unparen(e.X).(*ast.IndexExpr); ok {
+			if stp, isSlice := ex.typeOf(ix.X).Underlying().(*types.Slice); isSlice {
+				if sv, isSym := ex.eval(ix.X, st).(*SymSliceV); isSym {
+					idx := ex.indexTerm(ix.Index, st)
+					ex.assert(st, "safety.index", ex.ts.BVCmp(OpBVUlt, idx, sv.Len), ix.Pos(), "index below the slice length")
+					return &ElemAddrV{Owner: ex.lvalue(ix.X, st), Idx: idx, Elem: stp.Elem()}
+				}
+			}
 		}
 		lv := ex.lvalue(e.X, st)
 		if lv.Map != nil {
@@ -729,7 +744,7 @@ func (ex *Exec) convert(v Value, from, to types.Type, st *State, p token.Pos) Va
 			return &StrV{T: ts.Fresh("slicestr", IntSort)}
 		}
 		return v
-	case *PtrV, *FuncV, *StructV, *ArrayV, *HeapRefV, *MapV:
+	case *PtrV, *FuncV, *StructV, *ArrayV, *HeapRefV, *MapV, *ElemAddrV:
 		return v
 	}
 	unsupported("conversion from %s to %s at %s", from, to, ex.pos(p))
